@@ -914,9 +914,26 @@ def _hoist_walrus(tree):
         loop = ast.For(target=g.target, iter=g.iter, body=[inner], orelse=[], type_comment=None)
         return ast.fix_missing_locations(ast.copy_location(loop, st))
 
+    def split_and(st):
+        """`if A and (n := E) > 0: S` (no else)  is  `if A: if (n := E) > 0: S` - the assignment expression then leads its own test"""
+        if not (isinstance(st, ast.If) and not st.orelse and isinstance(st.test, ast.BoolOp) and isinstance(st.test.op, ast.And)):
+            return None
+        vals = st.test.values
+        k = next((i for i, v in enumerate(vals) if i > 0 and any(isinstance(x, ast.NamedExpr) for x in ast.walk(v))), None)
+        if k is None:
+            return None
+        first = vals[0] if k == 1 else ast.BoolOp(op=ast.And(), values=vals[:k])
+        rest = vals[k] if k == len(vals) - 1 else ast.BoolOp(op=ast.And(), values=vals[k:])
+        inner = ast.If(test=rest, body=st.body, orelse=[])
+        return ast.fix_missing_locations(ast.copy_location(ast.If(test=first, body=[ast.copy_location(inner, st)], orelse=[]), st))
+
     def block(stmts):
         res = []
         for st in stmts:
+            sp = split_and(st)
+            if sp is not None:
+                st = sp
+                count[0] += 1
             lp = any_to_loop(st)
             if lp is not None:
                 st = lp
@@ -1309,10 +1326,56 @@ def _split_tuple_assignments(tree):
     """`a, b = x, y` with independent sides is the same as `a = x; b = y` (no target occurs in a later right-hand side): the
     parallel form is split so that every store has its own value expression"""
     OPS = {"lt": ast.Lt, "le": ast.LtE, "gt": ast.Gt, "ge": ast.GtE, "eq": ast.Eq, "ne": ast.NotEq}
+    # names under which operator.attrgetter / itemgetter are known in this module
+    getters = {}
+    op_mods = set()
+    for st_ in ast.walk(tree):
+        if isinstance(st_, ast.ImportFrom) and st_.module == "operator":
+            for a_ in st_.names:
+                if a_.name in ("attrgetter", "itemgetter"):
+                    getters[a_.asname or a_.name] = a_.name
+        elif isinstance(st_, ast.Import):
+            for a_ in st_.names:
+                if a_.name == "operator":
+                    op_mods.add(a_.asname or "operator")
+
+    def getter_kind(fn_):
+        if isinstance(fn_, ast.Name) and fn_.id in getters:
+            return getters[fn_.id]
+        if isinstance(fn_, ast.Attribute) and isinstance(fn_.value, ast.Name) and fn_.value.id in op_mods and fn_.attr in ("attrgetter", "itemgetter"):
+            return fn_.attr
+        return None
 
     class T(ast.NodeTransformer):
         def visit_Call(self, n):
             self.generic_visit(n)
+            # attrgetter("a.b") is  lambda g: g.a.b ;  itemgetter(k) is  lambda g: g[k]   (several names / keys: the tuple of them)
+            gk = getter_kind(n.func)
+            if gk is not None and n.args and not n.keywords and all(isinstance(a, ast.Constant) for a in n.args) \
+                    and (gk == "itemgetter" or all(isinstance(a.value, str) and all(p.isidentifier() for p in a.value.split(".")) for a in n.args)):
+                gv = f"__g{getattr(n, 'lineno', 0)}_{getattr(n, 'col_offset', 0)}"
+
+                def one(a):
+                    base = ast.Name(id=gv, ctx=ast.Load())
+                    if gk == "itemgetter":
+                        return ast.Subscript(value=base, slice=ast.Constant(value=a.value), ctx=ast.Load())
+                    for part in a.value.split("."):
+                        base = ast.Attribute(value=base, attr=part, ctx=ast.Load())
+                    return base
+                body = one(n.args[0]) if len(n.args) == 1 else ast.Tuple(elts=[one(a) for a in n.args], ctx=ast.Load())
+                lam = ast.Lambda(args=ast.arguments(posonlyargs=[], args=[ast.arg(arg=gv)], kwonlyargs=[], kw_defaults=[], defaults=[]), body=body)
+                return ast.fix_missing_locations(ast.copy_location(lam, n))
+            # (lambda g: E)(x)  with one plain parameter and a side-effect-free argument  is  E[g := x]
+            if isinstance(n.func, ast.Lambda) and len(n.args) == 1 and not n.keywords and len(n.func.args.args) == 1 and not n.func.args.defaults \
+                    and not n.func.args.vararg and not n.func.args.kwarg and isinstance(n.args[0], (ast.Name, ast.Attribute, ast.Constant)):
+                import copy as _c
+                p_ = n.func.args.args[0].arg
+                arg_ = n.args[0]
+
+                class S3(ast.NodeTransformer):
+                    def visit_Name(self, x):
+                        return _c.deepcopy(arg_) if x.id == p_ and isinstance(x.ctx, ast.Load) else x
+                return ast.fix_missing_locations(ast.copy_location(S3().visit(_c.deepcopy(n.func.body)), n))
             # map(f, xs) is (f(x) for x in xs); filter(f, xs) is (x for x in xs if f(x)); list(<generator expression>) is the list comprehension
             if isinstance(n.func, ast.Name) and n.func.id in ("map", "filter") and len(n.args) == 2 and not n.keywords \
                     and not any(isinstance(a, ast.Starred) for a in n.args) and isinstance(n.args[0], (ast.Name, ast.Attribute, ast.Lambda, ast.Constant)):
@@ -1477,6 +1540,24 @@ def _split_tuple_assignments(tree):
             un = self._unroll_literal_comprehension(n)
             if un is not None:
                 return un
+            # `a, b = (E(k) for k in (k1, k2))`  ->  `a = E(k1); b = E(k2)`   (a comprehension over a literal sequence, unpacked into as many names)
+            if len(n.targets) == 1 and isinstance(n.targets[0], (ast.Tuple, ast.List)) and all(isinstance(t, ast.Name) for t in n.targets[0].elts) \
+                    and isinstance(n.value, (ast.GeneratorExp, ast.ListComp)) and len(n.value.generators) == 1 and not n.value.generators[0].ifs \
+                    and isinstance(n.value.generators[0].iter, (ast.Tuple, ast.List)) and len(n.value.generators[0].iter.elts) == len(n.targets[0].elts) \
+                    and isinstance(n.value.generators[0].target, ast.Name) \
+                    and not any(isinstance(x, ast.Starred) for x in n.value.generators[0].iter.elts) \
+                    and all(isinstance(x, (ast.Constant, ast.Name, ast.Attribute)) for x in n.value.generators[0].iter.elts):
+                import copy as _c
+                var = n.value.generators[0].target.id
+                tnames = {t.id for t in n.targets[0].elts}
+                if not any(isinstance(x, ast.Name) and x.id in tnames for x in ast.walk(n.value.elt)):
+                    out = []
+                    for t, item in zip(n.targets[0].elts, n.value.generators[0].iter.elts):
+                        class S2(ast.NodeTransformer):
+                            def visit_Name(self, x, item=item):
+                                return _c.deepcopy(item) if x.id == var and isinstance(x.ctx, ast.Load) else x
+                        out.append(ast.fix_missing_locations(ast.copy_location(ast.Assign(targets=[t], value=S2().visit(_c.deepcopy(n.value.elt)), type_comment=None), n)))
+                    return out
             # `a, *rest = G`  ->  `__s = list(G); a = __s[0]; rest = __s[1:]`   (head/tail split written as positions of one list)
             if len(n.targets) == 1 and isinstance(n.targets[0], (ast.Tuple, ast.List)) and len(n.targets[0].elts) == 2 \
                     and isinstance(n.targets[0].elts[0], ast.Name) and isinstance(n.targets[0].elts[1], ast.Starred) \
@@ -1815,6 +1896,16 @@ def _split_tuple_assignments(tree):
                 return None
             asg = n.body[0]
             t, v = asg.targets[0], asg.value
+            # `if A and x > a: x = a`  is  `if A: x = min(x, a)`   (A evaluated first either way; with A true the clamp is unconditional)
+            if isinstance(t, ast.Name) and isinstance(n.test, ast.BoolOp) and isinstance(n.test.op, ast.And) and len(n.test.values) >= 2 \
+                    and isinstance(n.test.values[-1], ast.Compare) and len(n.test.values[-1].ops) == 1 \
+                    and not any(isinstance(x, (ast.Call, ast.NamedExpr)) for x in ast.walk(n.test.values[-1])):
+                inner = self._if_clamp(ast.copy_location(ast.If(test=n.test.values[-1], body=n.body, orelse=[]), n))
+                if inner is not None:
+                    rest = n.test.values[:-1]
+                    outer_test = rest[0] if len(rest) == 1 else ast.BoolOp(op=ast.And(), values=rest)
+                    return ast.copy_location(ast.If(test=outer_test, body=[inner], orelse=[]), n)
+                return None
             if not isinstance(t, ast.Name) or not isinstance(n.test, ast.Compare) or len(n.test.ops) != 1:
                 return None
             l, op, r = n.test.left, n.test.ops[0], n.test.comparators[0]
